@@ -331,6 +331,20 @@ Theorem C16_report_inside_docstring_general :
       n0 + Z.of_nat (length (split_nl s)) - 1 + Z.of_nat (top_dropped s - top_kept s).
 Proof. exact report_inside_docstring_general. Qed.
 
+(* A problem inside a field body that documents an attribute (@ivar x: see L{nosuch}) is reported relative to the class
+   docstring -- as long as the attribute has no docstring of its own.  If it has one, ensure_parsed_docstring takes the
+   attribute as the source of the (field) text: the field's line inside the CLASS docstring is added to the line of the
+   attribute's OWN docstring, a line that is in neither docstring (class docstring content from line 19, field on its
+   line 4, own docstring on line 28: reported 32 instead of 23).  (known_findings/C16.json: C16-field-and-own-docstring) *)
+Theorem C16_split_field_xref_line_partial :
+  forall cds ln m z, cds <> 0 -> report_line sec_xref (split_field_source_lineno 0 cds) ln z m = Num (cds + z).
+Proof. exact split_field_xref_line. Qed.
+
+Theorem C16_split_field_xref_line_refuted :
+  ~ (forall own cds ln m z, cds <> 0 -> 0 <= own ->
+       report_line sec_xref (split_field_source_lineno own cds) ln z m = Num (cds + z)).
+Proof. exact split_field_xref_line_refuted. Qed.
+
 (* ---- once / topthresh as a refinement --------------------------------------------------------------------
    A call suppressed by `once` repeats an earlier once-only call with the same (section, message) that was itself
    handled (not suppressed). *)
